@@ -356,7 +356,7 @@ func TestC07_Sharing(t *testing.T) {
 	if tier() == "thorough" {
 		maxN = 24
 	}
-	rcheck(t, 1600, 32000, func(t *rapid.T) {
+	rcheck(t, 1600, 64000, func(t *rapid.T) {
 		gi := groups[uniformInt(t, 0, len(groups)-1, "group")]
 		c07Case(t, ev, gi, maxN)
 	})
